@@ -60,7 +60,11 @@ func parseBlocks(text string) *vdev {
 		}
 		if strings.HasPrefix(line, " ") {
 			if n := len(d.Blocks); n > 0 {
-				d.Blocks[n-1].Subs = append(d.Blocks[n-1].Subs, strings.TrimSpace(line))
+				t := strings.TrimSpace(line)
+				if strings.HasPrefix(line, "  ") && len(d.Blocks[n-1].Subs) > 0 {
+					t = " " + t // a line of a sub-sub-mode: kept behind its parent with one leading blank
+				}
+				d.Blocks[n-1].Subs = append(d.Blocks[n-1].Subs, t)
 			}
 			continue
 		}
@@ -122,6 +126,8 @@ func headKind(w []string) (kind, name string) {
 		return "tg", w[1]
 	case n == 3 && w[0] == "username" && (w[2] == "nopassword" || w[2] == "attributes"):
 		return "user", w[1]
+	case n >= 4 && w[0] == "username" && w[2] == "password":
+		return "user", w[1] // a local account: the line is not modelled by the tool, `clear configure username` removes it all the same
 	case n >= 3 && w[0] == "tunnel-group-map":
 		return "tgmap", ""
 	case n == 1 && w[0] == "webvpn":
@@ -299,7 +305,7 @@ func (b *block) refs() []ref {
 		}
 	}
 	mode := modeOf(w)
-	for _, sub := range b.Subs {
+	for _, sub := range b.modelSubs() {
 		sw := strings.Fields(sub)
 		for _, s := range subSlots(mode, sw) {
 			out = append(out, ref{s.kind, sw[s.idx]})
@@ -347,7 +353,7 @@ func (d *vdev) exists(r ref) bool {
 				return true
 			}
 		case "user":
-			if w[2] == "nopassword" {
+			if w[2] == "nopassword" || w[2] == "password" {
 				return true
 			}
 		default:
@@ -370,6 +376,17 @@ func (d *vdev) referencedBy(r ref) string {
 		}
 	}
 	return ""
+}
+
+// localUser: an account defined with `username NAME password …`. Netspoc only ever writes `username NAME nopassword`:
+// such a user (with its attributes) is outside Netspoc's scope.
+func (d *vdev) localUser(name string) bool {
+	for _, b := range d.Blocks {
+		if w := b.words(); len(w) >= 4 && w[0] == "username" && w[1] == name && w[2] == "password" {
+			return true
+		}
+	}
+	return false
 }
 
 func (d *vdev) removeBlock(x *block) {
@@ -489,6 +506,9 @@ func (e *executor) exec1(cmd string) error {
 		first = w[1]
 	}
 	isTop := topWords[first]
+	if e.cur != nil && w[0] == "no" && len(w) == 2 && first == "webvpn" && (e.mode == "gp-attr" || e.mode == "user-attr") {
+		isTop = false // removes the webvpn sub-mode of this group-policy / user
+	}
 	if e.cur != nil && isTop {
 		if first == "webvpn" && (e.mode == "gp-attr" || e.mode == "user-attr") {
 			return fmt.Errorf("top-level `%s` typed in mode (%s) of `%s`: that mode has a sub-mode of the same name", cmd, e.mode, e.cur.Head)
@@ -513,7 +533,11 @@ func (e *executor) execSub(cmd string, w []string) error {
 		line := strings.Join(w[1:], " ")
 		for i, s := range b.Subs {
 			if s == line {
-				b.Subs = append(b.Subs[:i:i], b.Subs[i+1:]...)
+				j := i + 1
+				for j < len(b.Subs) && isChild(b.Subs[j]) {
+					j++ // the lines of its sub-sub-mode go with it
+				}
+				b.Subs = append(b.Subs[:i:i], b.Subs[j:]...)
 				return nil
 			}
 		}
@@ -857,7 +881,13 @@ func (e *executor) execTop(cmd string, w []string) error {
 		if no {
 			return fmt.Errorf("command outside the modelled fragment: %s", cmd)
 		}
+		if pw[2] == "password" {
+			return fmt.Errorf("command outside the modelled fragment: %s", cmd)
+		}
 		if pw[2] == "nopassword" {
+			if d.localUser(name) {
+				return fmt.Errorf("username %s is a local account with a password: %s", name, cmd)
+			}
 			if d.findHead(pos) == nil {
 				d.add(pos)
 			}
@@ -1019,7 +1049,7 @@ func (d *vdev) content(r ref, depth int) string {
 	subsOf := func(b *block) []string {
 		mode := modeOf(b.words())
 		var out []string
-		for _, s := range b.Subs {
+		for _, s := range b.modelSubs() {
 			sw := strings.Fields(s)
 			if mode == "certmap" && sw[0] == "subject-name" {
 				s = strings.ToLower(s)
@@ -1190,7 +1220,9 @@ func (d *vdev) managedView(managed map[string]bool) string {
 				out = append(out, fmt.Sprintf("[crypto map interface %s] %s", w[4], d.content(ref{"cmap", w[2]}, 0)))
 			}
 		case "user":
-			users[name] = true
+			if !d.localUser(name) {
+				users[name] = true
+			}
 		case "tg":
 			if isIPName(name) {
 				tgs[name] = true
@@ -1249,7 +1281,9 @@ func (d *vdev) anchorRoots(managed map[string]bool) []ref {
 				out = append(out, b.refs()...)
 			}
 		case "user":
-			out = append(out, ref{"user", name})
+			if !d.localUser(name) {
+				out = append(out, ref{"user", name})
+			}
 		case "tg":
 			if isIPName(name) || defaultTG[name] != "" {
 				out = append(out, ref{"tg", name})
